@@ -79,9 +79,8 @@ class FFSynchronizer(Elaboratable):
             warnings.warn("`reset=` is deprecated, use `init=` instead",
                           DeprecationWarning, stacklevel=2)
             init = reset
-        if init is None:
-            init = 0
 
+        # `None` stands for the default initial value of the shape of `i`, which need not be an integer.
         self._init       = init
         self._reset_less = reset_less
         self._o_domain   = o_domain
